@@ -215,10 +215,11 @@ Example C30_former_D03_witness_holds :
   agree c = true /\ dom_of (verdict30 c) = true /\ holds_of (verdict30 c) = true /\ known_of (verdict30 c) = []
   /\ option_map ob_exports (ao_enc c) = Some [(1, 1, 1)].
 Proof. vm_compute. repeat split; reflexivity. Qed.
-(* D24: ModuleIterator::add_global then add_imported_global return the same id *)
-Example C30_refuted_D24 :
+(* former D24 (ModuleIterator::add_global then add_imported_global returned the same id; repaired: the iterator
+   goes through Module::add_global_internal): the witness now satisfies the property and the two ids differ *)
+Example C30_former_D24_witness_holds :
   let c := self_a [] [99] [] [] [] [] false [OItAddGlobal 1 i32g [IVal (VI32 1)]; OAddImpGlobal 2 i32g] [(SG, 0)] in
-  agree c = true /\ ao_rets c = [Some 0; Some 0] /\ dom_of (verdict30 c) = true /\ holds_of (verdict30 c) = false /\ known_D24 c = true.
+  agree c = true /\ ao_rets c = [Some 0; Some 1] /\ dom_of (verdict30 c) = true /\ holds_of (verdict30 c) = true.
 Proof. vm_compute. repeat split; reflexivity. Qed.
 (* former D06 (an added imported global that was deleted again still occupied index 0: `global.get 0` of the local
    global was emitted as `global.get 1`; repaired: recalculate_ids drops every deleted item): the witness now
